@@ -14,6 +14,7 @@ Three layers:
      and messages for marker strings planted at every string leaf.
 -/
 import KinModel.Gen.ReasonSites
+import KinModel.Gen.VisitSites
 import KinModel.Schema.Events
 namespace KinModel.Schema
 
@@ -333,6 +334,28 @@ theorem reported_reasons_value_free (m : Mode) (env : Env) (s : S) (v : J) :
     | nil => simp [Res.errs]
     | cons a b => simp only [Res.errs]; intro e he; exact key e (h2 e (by rw [hc]; exact he))
   | ffmulti => cases (runL Mode.ffmulti.policy (events env s v)).1 <;> simp [Res.errs]
+
+/-! ### the second sentence: messages assembled from reasons — the customizer must reach every schema visit
+
+`SchemaError.Error()` returns the customizer's text when one is attached, and the attachment is made by the visitor from
+`settings.customizeMessageError`; a VisitJSON call of openapi3filter that is not handed
+`SetSchemaErrorMessageCustomizer(options.customSchemaErrorFunc)` renders the default text (schema and VALUE dump) instead.
+Table Gen/VisitSites lists every such call with the options that dominate it. -/
+
+/-- the rule could read every call site -/
+theorem visit_sites_readable : Gen.visitSites.all (fun r => !r.opts.contains "unrecognised") = true := by decide
+
+/-- every VisitJSON call of openapi3filter (parameters, request body, response headers, response body) receives the
+configured schema-error function, before the call, under the only condition that one is configured -/
+theorem every_visit_gets_customizer :
+    Gen.visitSites.all (fun r => r.opts.contains "SetSchemaErrorMessageCustomizer=if options.customSchemaErrorFunc != nil") = true := by
+  decide
+
+/-- the call sites are the four the differential run exercises (parameter, request body, response body, response header) -/
+theorem visit_sites_are_the_exercised_ones :
+    Gen.visitSites.map (fun r => (r.fn, r.via)) =
+      [("ValidateParameter", ""), ("ValidateRequestBody", ""), ("ValidateResponse", ""), ("validateResponseHeader", "ValidateResponse")] := by
+  decide
 
 /-- the invariant is not vacuous: a fragment that does come from the value is detected -/
 example : (Err.clean { field := "x", reason := [.lit "bad value ", .valueStr "secret"] }) = false := by decide
